@@ -1085,13 +1085,101 @@ def s15_eager(inst, rep, skipset=None, rid="S15"):
         rep.violation(rid, "no-current-store", "%s: no store of a fetched token to Parser.current found" % inst.label, "")
 
 
+def _bool_gates(body, block):
+    """atomic facts (expr, truth) of every two-way boolean switch edge that dominates `block`"""
+    pr = P(body)
+    out = []
+    for b in sorted(body.reachable()):
+        t = body.term(b)
+        if t["t"] != "switch" or [v for v, _ in t["arms"]] != [0]:
+            continue
+        e = pr.operand(t["d"])
+        f_tgt = t["arms"][0][1]
+        if f_tgt != t["else"]:
+            if flow.edge_dominates(body, (b, f_tgt), block):
+                _atoms(e, False, out)
+            if flow.edge_dominates(body, (b, t["else"]), block):
+                _atoms(e, True, out)
+    return out
+
+
+def _token_read(e):
+    """e is a token read from Parser.tokens (`tokens.get(i)` payload or `tokens[i]`): return the index expression"""
+    x = e
+    while x[0] in ("field", "variant"):
+        x = x[1]
+    if x[0] == "call" and (is_call(x, "slice::get") or _method(x[3]) == "index") and len(x[2]) == 2 and any(is_field(y, "Parser", "tokens") for y in walk(x[2][0])):
+        return x[2][1]
+    return None
+
+
+def _s16_loop_form(inst, body, rel):
+    """explicit-loop lookahead: (a) every returned value is end_of_input or a token read whose own is_skipped test is false on a
+    dominating edge; (b) between the is_skipped-true edge and the next loop iteration only index variables are written"""
+    pr = P(body)
+    rets = [(pt, pr.rvalue(it["rv"])) for pt, it in flow.all_points(body) if "rv" in it and it["a"]["l"] == 0 and not it["a"]["p"]]
+    for d in body.defs().get(0, []):
+        if d[2] == "call":
+            rets.append(((d[0], len(body.blocks[d[0]]["s"])), pr.call_expr(d[3])))
+    if not rets:
+        return "no return value found"
+    idx_locals = set()
+    ntok = 0
+    for pt, e in rets:
+        if is_field(e, "Parser", "end_of_input"):
+            continue
+        ix = _token_read(e)
+        if ix is None:
+            return "returns `%s`, which is neither end_of_input nor a token read from Parser.tokens" % show(e, 80)
+        ntok += 1
+        idx_locals |= {y[1] for y in walk(ix) if y[0] == "local"}
+        g = _bool_gates(body, pt[0])
+        if not any(a[0] == "call" and is_call(a, "Parser::is_skipped") and a[2] and a[2][0] == e and tr is False for a, tr in g):
+            return "the returned token `%s` is not guarded by the false edge of is_skipped on that same token" % show(e, 80)
+    if ntok == 0:
+        return "never returns a token"
+    # (b) writes on the skipped path
+    heads = {lp["header"] for lp in body.loops()}
+    for b in sorted(body.reachable()):
+        t = body.term(b)
+        if t["t"] != "switch" or [v for v, _ in t["arms"]] != [0]:
+            continue
+        e = pr.operand(t["d"])
+        for truth, tgt in ((False, t["arms"][0][1]), (True, t["else"])):
+            facts = []
+            _atoms(e, truth, facts)
+            if not any(a[0] == "call" and is_call(a, "Parser::is_skipped") and tr is True for a, tr in facts):
+                continue
+            seen, todo = set(), [tgt]
+            while todo:
+                x = todo.pop()
+                if x in seen or x in heads:
+                    continue
+                seen.add(x)
+                for i, st in enumerate(body.blocks[x]["s"]):
+                    if "rv" in st and not st["a"]["p"] and body.varname(st["a"]["l"]) and st["a"]["l"] not in idx_locals:
+                        return "on the path taken for a skipped token the variable `%s` is written: skipped tokens influence the lookahead count" % body.varname(st["a"]["l"])
+                todo.extend(body.succ(x))
+    return None
+
+
 def s16_peek(inst, rep, rid="S16"):
-    rep.rule(rid, "DOM: peek and peek_left pass their token iterator through Iterator::filter with a closure that negates is_skipped, "
-                  "before nth(); peek starts at pos, peek_left takes pos+1 and reverses")
+    rep.rule(rid, "DOM: peek and peek_left never offer a skipped token and do not count one: either (iterator form) the token iterator starts "
+                  "at the cursor (`skip(pos)`, resp. `take(pos + 1).rev()`) and passes through Iterator::filter with a closure that is "
+                  "`!is_skipped(token)` before nth(n); or (loop form) every returned token is the argument of an is_skipped test whose false "
+                  "edge dominates the return, and on the path taken for a skipped token only the vector index is written")
     for rel in ("Parser::peek", "Parser::peek_left"):
         body = inst.fn(rel)
         pr = P(body)
-        nth = [(pt, args) for pt, name, decl, args, t in calls(body) if _method(decl) == "nth" or _method(name) == "nth"]
+        iter_calls = [(pt, name, decl, args) for pt, name, decl, args, t in calls(body) if _method(decl) in ("nth", "filter", "find", "skip", "take", "skip_while", "position", "find_map", "filter_map")]
+        if not iter_calls:
+            why = _s16_loop_form(inst, body, rel)
+            if why is None:
+                rep.ok(rid, "%s %s: explicit loop; returned tokens guarded by !is_skipped, skipped path writes only the index" % (inst.label, rel))
+            else:
+                rep.violation(rid, "%s|unfiltered-lookahead" % rel, "%s: %s offers lookahead that may see or count skipped tokens (%s)" % (inst.label, rel, why), "%s:%d" % (body.file, body.line))
+            continue
+        nth = [(pt, args) for pt, name, decl, args in iter_calls if _method(decl) == "nth"]
         good = False
         why = "no nth() call"
         for pt, args in nth:
@@ -1113,10 +1201,21 @@ def s16_peek(inst, rep, rid="S16"):
                         good = True
                     else:
                         why = "filter closure is not `!is_skipped(token)`: %s" % [show(r, 80) for r in rets]
-            src_ok = any(x[0] == "call" and _method(x[3]) in ("skip", "take") and any(is_field(y, "Parser", "pos") for y in walk(x[2][1])) for x in walk(it))
+
+            def _is_pos(x):
+                return is_field(x, "Parser", "pos")
+
+            def _is_pos1(x):
+                return x[0] == "bin" and x[1] == "Add" and ((_is_pos(x[2]) and x[3][0] == "const" and x[3][2] == 1) or (_is_pos(x[3]) and x[2][0] == "const" and x[2][2] == 1))
+            src = [x for x in walk(it) if x[0] == "call" and _method(x[3]) in ("skip", "take")]
+            src_ok = len(src) == 1 and ((_method(src[0][3]) == "skip" and _is_pos(src[0][2][1]) and not any(x[0] == "call" and _method(x[3]) == "rev" for x in walk(it)))
+                                        or (_method(src[0][3]) == "take" and _is_pos1(src[0][2][1]) and any(x[0] == "call" and _method(x[3]) == "rev" for x in walk(it))))
             if good and not src_ok:
                 good = False
-                why = "iterator does not start from the cursor"
+                why = "iterator does not start at the cursor (expected skip(pos), or take(pos + 1) reversed)"
+            if good and not (args[1][0] == "param"):
+                good = False
+                why = "nth() is not given the lookahead parameter"
         if good:
             rep.ok(rid, "%s %s: tokens.iter()...filter(!is_skipped).nth(n)" % (inst.label, rel))
         else:
